@@ -942,6 +942,68 @@ func ruleStatusBlock(r *Run) {
 	}
 }
 
+// deepSources: the root values v may come from, looking through parameters (to the arguments of every static call
+// site in the module) and through calls of module functions (to their returned values).
+func (p *Program) deepSources(v ssa.Value, opts originOpts) []ssa.Value {
+	opts.local = true
+	var out []ssa.Value
+	seen := map[ssa.Value]bool{}
+	var walk func(v ssa.Value, d int)
+	walk = func(v ssa.Value, d int) {
+		for _, o := range p.origins(v, opts) {
+			if seen[o] || d > 6 {
+				continue
+			}
+			seen[o] = true
+			switch x := o.(type) {
+			case *ssa.Parameter:
+				fn := x.Parent()
+				idx := -1
+				for i, fp := range fn.Params {
+					if fp == x {
+						idx = i
+					}
+				}
+				found := false
+				for _, g := range p.ModuleFuncs() {
+					eachInstr(g, func(in ssa.Instruction) {
+						if c, ok := in.(ssa.CallInstruction); ok && !c.Common().IsInvoke() && c.Common().StaticCallee() == fn && idx >= 0 && idx < len(c.Common().Args) {
+							found = true
+							walk(c.Common().Args[idx], d+1)
+						}
+					})
+				}
+				if !found {
+					out = append(out, o)
+				}
+				continue
+			case *ssa.Call, *ssa.Extract:
+				var call *ssa.Call
+				idx := 0
+				if ex, ok := x.(*ssa.Extract); ok {
+					call, _ = ex.Tuple.(*ssa.Call)
+					idx = ex.Index
+				} else {
+					call = x.(*ssa.Call)
+				}
+				if call != nil && !call.Call.IsInvoke() {
+					if callee := call.Call.StaticCallee(); callee != nil && p.InModule(callee) && len(callee.Blocks) > 0 {
+						eachInstr(callee, func(in ssa.Instruction) {
+							if rt, ok := in.(*ssa.Return); ok && idx < len(rt.Results) {
+								walk(rt.Results[idx], d+1)
+							}
+						})
+						continue
+					}
+				}
+			}
+			out = append(out, o)
+		}
+	}
+	walk(v, 0)
+	return out
+}
+
 func ruleFDHashStreamed(r *Run) {
 	p := r.P
 	fn := p.Method("state", "addConnHandler")
@@ -972,27 +1034,31 @@ func ruleFDHashStreamed(r *Run) {
 		r.undecided(key, fn.Pos(), "no store to / comparison with connList.fdHash found")
 		return
 	}
+	// hashes written to in addConnHandler's region (the hash may be handed to a helper as an io.Writer)
+	written := map[ssa.Value]bool{}
+	p.eachInstrRegion(fn, func(_ *ssa.Function, in ssa.Instruction) {
+		if w, ok := in.(ssa.CallInstruction); ok && w.Common().IsInvoke() && w.Common().Method.Name() == "Write" {
+			for _, ho := range p.deepSources(w.Common().Value, originOpts{throughConvert: true, throughAssert: true}) {
+				written[ho] = true
+			}
+		}
+	})
 	for _, v := range vals {
-		for _, o := range p.origins(v, originOpts{throughSlice: true, throughConvert: true, local: true}) {
+		for _, o := range p.deepSources(v, originOpts{throughSlice: true, throughConvert: true}) {
+			if isNilConst(o) {
+				continue
+			}
 			c, ok := o.(*ssa.Call)
 			if !ok || !c.Call.IsInvoke() || c.Call.Method.Name() != "Sum" {
 				r.bad(key, v.Pos(), "the digest that decides 'connection unchanged' is %s, not the Sum of one streaming hash over the received file descriptors: a combination of per-file digests in which equal inputs cancel (XOR) or that ignores multiplicity takes a changed backend for unchanged, and the refresh keeps the stale methods", describeValue(o))
 				return
 			}
-			h := c.Call.Value
-			// every file descriptor stored for processing was written into h
 			wrote := false
-			p.eachInstrRegion(fn, func(_ *ssa.Function, in ssa.Instruction) {
-				if w, ok := in.(ssa.CallInstruction); ok && w.Common().IsInvoke() && w.Common().Method.Name() == "Write" {
-					for _, ho := range p.origins(w.Common().Value, originOpts{local: true}) {
-						for _, h2 := range p.origins(h, originOpts{local: true}) {
-							if ho == h2 {
-								wrote = true
-							}
-						}
-					}
+			for _, ho := range p.deepSources(c.Call.Value, originOpts{throughConvert: true, throughAssert: true}) {
+				if written[ho] {
+					wrote = true
 				}
-			})
+			}
 			if !wrote {
 				r.bad(key, c.Pos(), "nothing is written into the hash whose Sum decides 'connection unchanged'")
 				return
@@ -1052,9 +1118,33 @@ func (p *Program) suffixResult(fn *ssa.Function, idx int, depth int) (par int, p
 					return nil, nil, true
 				}
 			case *ssa.Call:
+				switch calleeName(x) {
+				case "strings.TrimLeft", "strings.TrimPrefix", "bytes.TrimLeft", "bytes.TrimPrefix":
+					b, _, ok := walk(x.Call.Args[0], d+1)
+					return b, nil, ok
+				}
 				if callee := x.Call.StaticCallee(); callee != nil && len(x.Call.Args) == 1 {
 					if pi, _, ok := p.suffixResult(callee, 0, depth+1); ok && pi == 0 {
 						b, _, ok := walk(x.Call.Args[0], d+1)
+						return b, nil, ok
+					}
+				}
+			case *ssa.Extract:
+				call, isCall := x.Tuple.(*ssa.Call)
+				if !isCall {
+					return nil, nil, false
+				}
+				switch calleeName(call) {
+				case "strings.CutPrefix", "bytes.CutPrefix":
+					if x.Index == 0 {
+						b, _, ok := walk(call.Call.Args[0], d+1)
+						return b, nil, ok
+					}
+					return nil, nil, false
+				}
+				if callee := call.Call.StaticCallee(); callee != nil {
+					if pi, _, ok := p.suffixResult(callee, x.Index, depth+1); ok && pi < len(call.Call.Args) {
+						b, _, ok := walk(call.Call.Args[pi], d+1)
 						return b, nil, ok
 					}
 				}
@@ -1208,6 +1298,36 @@ func ruleScanProgress(r *Run) {
 						if !ok {
 							return scanUnknown
 						}
+						// strings.CutPrefix(x, lit) / bytes.CutPrefix: the rest is x without lit where found, else x
+						switch calleeName(call) {
+						case "strings.CutPrefix", "bytes.CutPrefix", "strings.Cut", "bytes.Cut":
+							isCut := strings.HasSuffix(calleeName(call), ".Cut")
+							restIdx, okIdx := 0, 1
+							if isCut {
+								restIdx, okIdx = 1, 2
+							}
+							if x.Index != restIdx {
+								return scanUnknown
+							}
+							inner := verdictOf(call.Call.Args[0], at, seen, d+1)
+							if inner != scanNonStrict {
+								return inner
+							}
+							lit, isC := constString(call.Call.Args[1])
+							if !isC || lit == "" {
+								return inner
+							}
+							found := extractOf(call, okIdx)
+							for _, g := range guardsOf(at) {
+								if found != nil && g.Cond == found && g.True {
+									return scanStrict
+								}
+							}
+							if isCut {
+								return scanUnknown // not found: the rest is empty, not the input
+							}
+							return inner
+						}
 						callee := call.Call.StaticCallee()
 						pi, pref, ok := p.suffixResult(callee, x.Index, 0)
 						if !ok || pi >= len(call.Call.Args) {
@@ -1267,5 +1387,129 @@ func ruleScanProgress(r *Run) {
 	}
 	if n == 0 {
 		r.undecided("input-consuming loops", token.NoPos, "no loop carrying its input in a string/[]byte variable found on request paths")
+	}
+}
+
+func init() {
+	register(&Rule{Name: "DELRULE-TOTAL", Floor: 3,
+		Doc: "path.delRule removes every rule of the method, not the first one it meets: its loops over the children, the variables and the verb table are left only at their end (no return or break from the body), it clears a matching methodAll, and path.alive reads every field of path that can hold a route (a node holding only a kind-'*' route is not dead). Otherwise which binding survives a DropConn depends on map iteration order, the re-registration finds the surviving primary rule ('already registered') and never re-adds the additional bindings: routes of a live method answer 404",
+		Run: ruleDelRuleTotal})
+}
+
+// naturalLoop: the blocks of the natural loop of back edge tail -> head.
+func naturalLoop(head, tail *ssa.BasicBlock) map[*ssa.BasicBlock]bool {
+	in := map[*ssa.BasicBlock]bool{head: true}
+	var stack []*ssa.BasicBlock
+	if !in[tail] {
+		in[tail] = true
+		stack = append(stack, tail)
+	}
+	for len(stack) > 0 {
+		b := stack[len(stack)-1]
+		stack = stack[:len(stack)-1]
+		for _, pr := range b.Preds {
+			if !in[pr] {
+				in[pr] = true
+				stack = append(stack, pr)
+			}
+		}
+	}
+	return in
+}
+
+func ruleDelRuleTotal(r *Run) {
+	p := r.P
+	fn := p.Method("path", "delRule")
+	al := p.Method("path", "alive")
+	pt := p.NamedType("path")
+	if fn == nil || al == nil || pt == nil {
+		r.missing("(*path).delRule / (*path).alive")
+		return
+	}
+	key := shortFunc(fn)
+	// loops are left only through their head
+	nLoops := 0
+	for _, h := range fn.Blocks {
+		loop := map[*ssa.BasicBlock]bool{}
+		for _, t := range h.Preds {
+			if h.Dominates(t) {
+				for b := range naturalLoop(h, t) {
+					loop[b] = true
+				}
+			}
+		}
+		if len(loop) > 0 {
+			nLoops++
+			var early *ssa.BasicBlock
+			for b := range loop {
+				if b == h {
+					continue
+				}
+				for _, s := range b.Succs {
+					if !loop[s] {
+						early = b
+					}
+				}
+			}
+			k := fmt.Sprintf("%s/loop-runs-to-its-end#%d", key, nLoops)
+			if early != nil {
+				pos := h.Instrs[0].Pos()
+				if last := early.Instrs[len(early.Instrs)-1]; last.Pos().IsValid() {
+					pos = last.Pos()
+				}
+				r.bad(k, pos, "a loop of delRule is left from its body (return/break after the first hit): only the first rule of the method that the iteration meets is removed - which one depends on map order - and the others stay in the trie; on re-registration addRule finds a surviving primary rule, reports 'already registered' and never re-adds the additional bindings, so a binding that was the one removed answers 404 although the method has a live backend")
+			} else {
+				r.ok(k, h.Instrs[0].Pos(), "the loop is left only at its head: every child/variable/verb entry is visited")
+			}
+		}
+	}
+	if nLoops == 0 {
+		r.undecided(key+"/loops", fn.Pos(), "delRule has no loop")
+	}
+	// methodAll
+	st, _ := pt.Underlying().(*types.Struct)
+	cleared := map[*types.Var]bool{}
+	eachInstr(fn, func(in ssa.Instruction) {
+		switch x := in.(type) {
+		case *ssa.Store:
+			if fa, ok := x.Addr.(*ssa.FieldAddr); ok && isNilConst(x.Val) {
+				cleared[fieldOfAddr(fa)] = true
+			}
+		case *ssa.Call:
+			if b, ok := x.Call.Value.(*ssa.Builtin); ok && b.Name() == "delete" {
+				if f := loadedField(x.Call.Args[0]); f != nil {
+					cleared[f] = true
+				}
+			}
+		}
+	})
+	readsAlive := map[*types.Var]bool{}
+	p.eachInstrRegion(al, func(_ *ssa.Function, in ssa.Instruction) {
+		if u, ok := in.(*ssa.UnOp); ok {
+			if f := loadedField(u); f != nil {
+				readsAlive[f] = true
+			}
+		}
+	})
+	for i := 0; st != nil && i < st.NumFields(); i++ {
+		f := st.Field(i)
+		var holdsMethod bool
+		switch t := f.Type().Underlying().(type) {
+		case *types.Pointer:
+			nm := namedOf(t)
+			holdsMethod = nm != nil && nm.Obj().Name() == "method"
+		case *types.Map:
+			nm := namedOf(t.Elem())
+			holdsMethod = nm != nil && nm.Obj().Name() == "method"
+		}
+		if holdsMethod {
+			r.check(cleared[f], fmt.Sprintf("%s/clears:path.%s", key, f.Name()), fn.Pos(), "delRule removes the method from path."+f.Name(),
+				"delRule never removes a method from path."+f.Name()+": a rule kept there (the implicit /Service/Method route is a kind-'*' rule) survives the drop, and the re-registration takes it for 'already registered'")
+		}
+		switch f.Type().Underlying().(type) {
+		case *types.Pointer, *types.Map, *types.Slice:
+			r.check(readsAlive[f], fmt.Sprintf("%s/reads:path.%s", shortFunc(al), f.Name()), al.Pos(), "alive() looks at path."+f.Name(),
+				"alive() does not look at path."+f.Name()+": a node whose only route is kept there counts as dead and is pruned together with a still-registered route when a sibling below it is removed")
+		}
 	}
 }
